@@ -99,14 +99,22 @@ package go_clipper2
 //@   loop 2 invariant [members] forall(k, 0, len(result), memberOf(result[k], path))
 //@   loop 2 step [kept-or-collinear] i == old(i) + 1 && ((same(result, old(result)) && last == old(last) && isCollinear(old(last), path[old(i)], path[old(i)+1])) || (len(result) == old(len(result)) + 1 && result[len(result)-1] == path[old(i)] && last == path[old(i)] && !isCollinear(old(last), path[old(i)], path[old(i)+1])))
 //@   loop 2 decreases l - i
+//@   loop 2 invariant [nothing-dropped-so-far-means-an-exact-copy-without-a-collinear-triple] (len(result) == i && l == len(path)) ==> (last == path[i-1] && forall(k, 0, i, result[k] == path[k]) && forall(k, 1, i, !isCollinear(path[k-1], path[k], path[k+1])) && (!isOpen ==> (!isCollinear(path[l-1], path[0], path[1]) && !isCollinear(path[l-2], path[l-1], path[0]))))
 //@   loop 3 invariant [members] forall(k, 0, len(result), memberOf(result[k], path))
-//@   loop 3 invariant [len] len(result) >= 1 && len(result) <= len(path)
+//@   loop 3 invariant [len] len(result) >= 1 && len(result) <= len(path) && len(result) <= l-1 && l <= len(path)
 //@   loop 3 decreases len(result)
+//@   loop 3 entry [the-last-vertex-is-dropped-only-when-collinear-with-its-kept-neighbours] isCollinear(last, path[l-1], result[0])
+//@   loop 3 step [a-kept-vertex-is-dropped-at-the-end-only-when-collinear-with-its-kept-neighbours] len(result) == old(len(result)) - 1 && isCollinear(old(result[len(result)-1]), old(result[len(result)-2]), result[0])
 //@   ensures [open-ends] (isOpen && len(result) > 0) ==> (result[0] == path[0] && result[len(result)-1] == path[len(path)-1])
 //@   ensures [closed-size-if-exact] (!isOpen && collExact(path)) ==> (len(result) == 0 || len(result) >= 3)
 //@   ensures [members] forall(k, 0, len(result), memberOf(result[k], path))
 //@   ensures [short] len(path) < 3 && !isOpen ==> len(result) == 0
 //@   ensures [no-growth] len(result) <= len(path)
+//@   assert after result#3 [open-tail-appended] (len(result) == l && l == len(path)) ==> (forall(k, 0, l, result[k] == path[k]) && forall(k, 1, l-1, !isCollinear(path[k-1], path[k], path[k+1])))
+//@   assert after result#4 [closed-tail-appended] (len(result) == l && l == len(path)) ==> (forall(k, 0, l, result[k] == path[k]) && forall(k, 1, l-1, !isCollinear(path[k-1], path[k], path[k+1])) && !isCollinear(path[l-1], path[0], path[1]) && !isCollinear(path[l-2], path[l-1], path[0]))
+//@   ensures [a-pass-that-removes-nothing-returns-the-path] len(result) == len(path) ==> forall(k, 0, len(path), result[k] == path[k])
+//@   ensures [a-pass-that-removes-nothing-found-no-collinear-interior-triple] len(result) == len(path) ==> forall(k, 1, len(path)-1, !isCollinear(path[k-1], path[k], path[k+1]))
+//@   ensures [a-pass-that-removes-nothing-found-no-collinear-triple-across-the-closing-point] (len(result) == len(path) && !isOpen && len(path) >= 3) ==> (!isCollinear(path[len(path)-1], path[0], path[1]) && !isCollinear(path[len(path)-2], path[len(path)-1], path[0]))
 //@   ensures [dom] domPath(result, 29)
 
 //@ func TrimCollinear64
@@ -118,6 +126,8 @@ package go_clipper2
 //@   loop 0 decreases len(path)
 //@   ensures [open-ends] (isOpen && len(result) > 0) ==> (result[0] == old(path)[0] && result[len(result)-1] == old(path)[len(old(path))-1])
 //@   ensures [closed-size] !isOpen ==> (len(result) == 0 || len(result) >= 3)
+//@   ensures [no-three-consecutive-result-vertices-are-collinear] forall(k, 1, len(result)-1, !isCollinear(result[k-1], result[k], result[k+1]))
+//@   ensures [nor-across-the-closing-point-of-a-closed-path] (!isOpen && len(result) >= 3) ==> (!isCollinear(result[len(result)-1], result[0], result[1]) && !isCollinear(result[len(result)-2], result[len(result)-1], result[0]))
 //@   ensures [members] forall(k, 0, len(result), memberOf(result[k], old(path)))
 //@   ensures [short] len(old(path)) < 3 && !isOpen ==> len(result) == 0
 
@@ -1167,7 +1177,7 @@ package go_clipper2
 
 //@ func areaTriangle
 //@   props C03 C01 C02 C17 C19 C04 C05 C08 C09 C10
-//@   requires dom(pt1, 29) && dom(pt2, 29) && dom(pt3, 29)
+//@   assumes dom(pt1, 29) && dom(pt2, 29) && dom(pt3, 29)
 //@   ensures [half-the-cross-product-of-the-corners] result * 2 == toReal(cross(pt1, pt2, pt3))
 
 //@ func clipperBase.AddPath
